@@ -14,13 +14,14 @@ theorem clearLoop_sim (l : List Nat) : ∀ (S : PTable) (b0 : Option Nat) (first
       (∀ j, (S'.items j).cell = (S.items j).cell ∧ (S'.items j).key = (S.items j).key ∧ (S'.items j).value = (S.items j).value) ∧
       (∀ b, S.heads b = none → S'.heads b = none) ∧
       (∀ i ∈ l, ∀ b, (S.items i).cell = .bucket b → S'.heads b = none) ∧
-      S'.self = S.self ∧ S'.cap = S.cap ∧ S'.allocated = S.allocated ∧ S'.size = S.size ∧ S'.blocks = S.blocks := by
+      S'.self = S.self ∧ S'.cap = S.cap ∧ S'.allocated = S.allocated ∧ S'.size = S.size ∧ S'.blocks = S.blocks ∧
+      S'.ipb = S.ipb ∧ S'.dcap = S.dcap := by
   induction l with
   | nil =>
     intro S b0 first f fuel hg _ _ hfree _
     simp only [GSeg] at hg
     subst hg
-    refine ⟨S, ?_, by simpa using hfree, fun j => ⟨rfl, rfl, rfl⟩, fun b hb => hb, by simp, rfl, rfl, rfl, rfl, rfl⟩
+    refine ⟨S, ?_, by simpa using hfree, fun j => ⟨rfl, rfl, rfl⟩, fun b hb => hb, by simp, rfl, rfl, rfl, rfl, rfl, rfl, rfl⟩
     cases fuel <;> simp [PTable.clearLoop]
   | cons x r ih =>
     intro S b0 first f fuel hg hn hdisj hfree hfuel
@@ -39,7 +40,8 @@ theorem clearLoop_sim (l : List Nat) : ∀ (S : PTable) (b0 : Option Nat) (first
             (S3.items j).key = (S.items j).key ∧ (S3.items j).value = (S.items j).value) ∧
           (∀ j, j ≠ x → (S3.items j).prev = (S.items j).prev) ∧ (S3.items x).prev = S.freeItem ∧
           (∀ b, S.heads b = none → S3.heads b = none) ∧ (∀ b, (S.items x).cell = .bucket b → S3.heads b = none) ∧
-          S3.self = S.self ∧ S3.cap = S.cap ∧ S3.allocated = S.allocated ∧ S3.size = S.size ∧ S3.blocks = S.blocks := by
+          S3.self = S.self ∧ S3.cap = S.cap ∧ S3.allocated = S.allocated ∧ S3.size = S.size ∧ S3.blocks = S.blocks ∧
+          S3.ipb = S.ipb ∧ S3.dcap = S.dcap := by
         cases hc : (S.items x).cell with
         | bucket b =>
           simp only [S3, PTable.writeCell, PTable.setPrev, hc, upd_apply]
@@ -47,7 +49,7 @@ theorem clearLoop_sim (l : List Nat) : ∀ (S : PTable) (b0 : Option Nat) (first
         | nextOf c =>
           simp only [S3, PTable.writeCell, PTable.setPrev, hc, upd_apply]
           and_intros <;> (try intro j) <;> (try intro hj) <;> grind
-      obtain ⟨g1, g2, g3, g4, g5, g_self, g_cap, g_alloc, g_size, g_blocks⟩ := hfields
+      obtain ⟨g1, g2, g3, g4, g5, g_self, g_cap, g_alloc, g_size, g_blocks, g_ipb, g_dcap⟩ := hfields
       have hx_f : x ∉ f := hdisj x List.mem_cons_self
       have hg3 : GSeg Nxt.item some (fun i => (S3.items i).next) (fun i => (S3.items i).prev) (some x) (S3.items x).next r (.stl S3.self) := by
         rw [(g1 x).1, g_self]
@@ -61,7 +63,7 @@ theorem clearLoop_sim (l : List Nat) : ∀ (S : PTable) (b0 : Option Nat) (first
         apply (FreeL_congr _ _ _).2 hfree
         intro j hj
         exact g2 j (fun e => hx_f (e ▸ hj))
-      obtain ⟨S', e1, e2, e3, e4, e5, e6, e7, e8, e9, e10⟩ := ih S3 (some x) (S3.items x).next (x :: f) fuel' hg3 hn.2
+      obtain ⟨S', e1, e2, e3, e4, e5, e6, e7, e8, e9, e10, e11, e12⟩ := ih S3 (some x) (S3.items x).next (x :: f) fuel' hg3 hn.2
         (by
           intro j hj hjf
           rcases List.mem_cons.1 hjf with e | e
@@ -69,7 +71,7 @@ theorem clearLoop_sim (l : List Nat) : ∀ (S : PTable) (b0 : Option Nat) (first
           · exact hdisj j (List.mem_cons_of_mem _ hj) e)
         hfree3 (by simpa using hfuel)
       refine ⟨S', by rw [hS3]; exact e1, by simpa using e2, ?_, ?_, ?_, by rw [e6, g_self], by rw [e7, g_cap],
-        by rw [e8, g_alloc], by rw [e9, g_size], by rw [e10, g_blocks]⟩
+        by rw [e8, g_alloc], by rw [e9, g_size], by rw [e10, g_blocks], by rw [e11, g_ipb], by rw [e12, g_dcap]⟩
       · intro j
         rw [(e3 j).1, (e3 j).2.1, (e3 j).2.2, (g1 j).2.1, (g1 j).2.2.1, (g1 j).2.2.2]
         exact ⟨rfl, rfl, rfl⟩
@@ -93,7 +95,7 @@ theorem clear_data_nil {h : Nat → Nat} {t : Table} (hi : t.Inv h) (ha : t.allo
 
 theorem Rel.clear {h : Nat → Nat} {pt : PTable} {t : Table} (hr : Rel pt t) (hi : t.Inv h) :
     ∃ pt', pt.clear = some pt' ∧ Rel pt' t.clear ∧ pt'.self = pt.self := by
-  obtain ⟨S', e1, e2, e3, e4, e5, e6, e7, e8, e9, e10⟩ := clearLoop_sim t.order pt none pt.begin t.free pt.size hr.order
+  obtain ⟨S', e1, e2, e3, e4, e5, e6, e7, e8, e9, e10, e11, e12⟩ := clearLoop_sim t.order pt none pt.begin t.free pt.size hr.order
     hi.order_nodup (fun j hj hjf => hi.free_disj j hjf hj) hr.free (by rw [hr.size, hi.size_eq]; exact Nat.le_refl _)
   refine ⟨{ S' with begin := .stl S'.self, endPrev := none, size := 0 }, by simp only [PTable.clear, e1], ?_, e6⟩
   constructor
@@ -101,6 +103,8 @@ theorem Rel.clear {h : Nat → Nat} {pt : PTable} {t : Table} (hr : Rel pt t) (h
   · show S'.allocated = t.allocated; rw [e8, hr.alloc]
   · rfl
   · show S'.blocks = t.blocks; rw [e10, hr.blocks]
+  · show S'.ipb = t.ipb; rw [e11, hr.ipb]
+  · show S'.dcap = t.dcap; rw [e12, hr.dcap]
   · intro j; show (S'.items j).key = (t.items j).key ∧ (S'.items j).value = (t.items j).value
     rw [(e3 j).2.1, (e3 j).2.2]; exact hr.kv j
   · intro ha b
@@ -142,6 +146,8 @@ theorem reanchor {pt : PTable} {t : Table} (hr : Rel pt t) {h : Nat → Nat} (hi
     · exact hr.alloc
     · exact hr.size
     · exact hr.blocks
+    · exact hr.ipb
+    · exact hr.dcap
     · exact hr.kv
     · exact hr.chains
     · show GSeg _ _ _ _ _ (Nxt.stl s') t.order (Nxt.stl s'); rw [hnil]; simp [GSeg]
@@ -160,6 +166,8 @@ theorem reanchor {pt : PTable} {t : Table} (hr : Rel pt t) {h : Nat → Nat} (hi
     · exact hr.alloc
     · exact hr.size
     · exact hr.blocks
+    · exact hr.ipb
+    · exact hr.dcap
     · intro j; show (upd pt.items l _ j).key = _ ∧ (upd pt.items l _ j).value = _
       rw [(hf j).2.2.2.1, (hf j).2.2.2.2]; exact hr.kv j
     · intro ha b
